@@ -143,6 +143,10 @@ func runFallback(id string, parts []string) string {
 	defer cancel()
 	resp, err := u.ExchangeContext(ctx, q)
 	res := "ERR"
+	if err == nil && resp == nil {
+		// neither a message nor an error: the caller was told the exchange succeeded and got nothing
+		res = "NIL-NIL"
+	}
 	if err == nil && resp != nil {
 		res = "?"
 		if resp.Header.Truncated {
